@@ -77,11 +77,14 @@ theorem check_input_data_spec (dc dm bo : Bool) (data : List (DRow F)) :
                  !((data.filter (keptD dc)).filterMap fun r => r.y).all zeroOne)) := by
   have hz : (zeroOne : F → Bool) = fun v => v == ((0 : Nat) : F) || v == ((1 : Nat) : F) := rfl
   have hnot : ∀ b : Bool, (if b = true then false else true) = !b := by intro b; cases b <;> rfl
+  -- the same flag under the other spelling of the test (`if not …: continuous = True else: continuous = False`)
+  have hnot2 : ∀ b : Bool, (if ¬ b = true then true else false) = !b := by intro b; cases b <;> rfl
+  have hnot3 : ∀ b : Bool, (if b = true then true else false) = b := by intro b; cases b <;> rfl
   cases dc
   · -- drop_censoring = False
     have hk : (keptD false : DRow F → Bool) = fun r => r.e.isSome && r.c.isSome := by
       funext r; simp [keptD, DRow.covComplete]
-    simp only [Gen.check_input_data, Bool.false_eq_true, if_false, filter_if_len, len_ne_iff_any, hnot]
+    simp only [Gen.check_input_data, Bool.false_eq_true, if_false, filter_if_len, len_ne_iff_any, hnot, hnot2, hnot3]
     simp only [hk, hz, Bool.not_false, Bool.true_and, Bool.false_or]
     by_cases hany : ((data.filter fun r => r.e.isSome && r.c.isSome).any fun r => r.y.isNone) = true
     · have hm : ((data.filter fun r => r.e.isSome && r.c.isSome).map fun r => if r.y.isNone = true then 0 else 1)
@@ -102,7 +105,7 @@ theorem check_input_data_spec (dc dm bo : Bool) (data : List (DRow F)) :
   · -- drop_censoring = True
     have hk : (keptD true : DRow F → Bool) = fun r => r.e.isSome && r.c.isSome && r.y.isSome := by
       funext r; simp [keptD, DRow.complete]
-    simp only [Gen.check_input_data, if_true, filter_if_len, hnot]
+    simp only [Gen.check_input_data, if_true, filter_if_len, hnot, hnot2, hnot3]
     simp only [hk, hz, Bool.not_true, Bool.false_and, Bool.true_or, if_true]
 
 /-- `drop_missing` "currently does nothing" (docstring of the source): the generated function does not read it -/
